@@ -257,6 +257,49 @@ def stepOp (cfg : TtlConfig) (s : State) : Op → State
 
 def run (cfg : TtlConfig) (s : State) (ops : List Op) : State := ops.foldl (stepOp cfg) s
 
+/-! ### how a response becomes a cacheable or a non-cacheable result
+(`DnsError::from_response`, crates/net/src/error.rs; `DnsResponse::{negative_ttl, contains_answer}`,
+crates/proto/src/op/dns_response.rs) -/
+
+/-- A response as far as `from_response` looks at it, for a query of an ordinary type
+(not ANY, not SOA). -/
+structure Resp where
+  rcode : Nat
+  truncated : Bool := false
+  /-- `!self.answers.is_empty()` -/
+  answersNonEmpty : Bool := false
+  /-- some record of any section has the query's type and owner name -/
+  matchAnywhere : Bool := false
+  /-- first SOA record of the authority section: `(record TTL, MINIMUM field)` -/
+  soa : Option (Nat × Nat) := none
+  deriving Repr, DecidableEq, Inhabited
+
+/-- `DnsResponse::contains_answer` (arm `q_type => …`) -/
+def Resp.containsAnswer (r : Resp) : Bool := r.answersNonEmpty || r.matchAnywhere
+
+/-- `DnsResponse::negative_ttl` : `(ttl).min(soa.minimum)` of the first SOA in the authority section -/
+def Resp.negativeTtl (r : Resp) : Option Nat := r.soa.map fun p => if p.1 ≤ p.2 then p.1 else p.2
+
+/-- response codes that `from_response` turns into `DnsError::ResponseCode` (Refused, ServFail, FormErr,
+NotImp, YXDomain, YXRRSet, NXRRSet, NotAuth, NotZone, BADVERS/BADSIG, BADKEY, BADTIME, BADMODE,
+BADNAME, BADALG, BADTRUNC, BADCOOKIE) -/
+def errCodes : List Nat := [5, 2, 1, 4, 6, 7, 8, 9, 10, 16, 17, 18, 19, 20, 21, 22, 23]
+
+inductive RespClass where
+  /-- `Ok(response)` : handed on as a positive message -/
+  | ok
+  /-- `Err(DnsError::NoRecordsFound(..))` with this `negative_ttl` : the one cacheable error -/
+  | noRecords (negTtl : Option Nat)
+  /-- `Err(DnsError::ResponseCode(code))` : never cached -/
+  | rcodeErr (code : Nat)
+  deriving Repr, DecidableEq, Inhabited
+
+/-- `DnsError::from_response` -/
+def fromResponse (r : Resp) : RespClass :=
+  if errCodes.contains r.rcode then .rcodeErr r.rcode
+  else if (r.rcode == 3 || r.rcode == 0) && !r.containsAnswer && !r.truncated then .noRecords r.negativeTtl
+  else .ok
+
 /-! ### decidable classes of configurations (known-finding classes) -/
 
 /-- `min ≤ max` for both `Duration` pairs of one `TtlBounds` (with the defaults filled in). -/
